@@ -337,7 +337,11 @@ func sideSitesOf(p *Prog, fn *ssa.Function) []sideSite {
 						ops = append(ops, a)
 					}
 				}
-				emit("call:"+shortName(f), x, ops)
+				name := "call:" + shortName(f)
+				if shortName(f) == "fmt.Sprintf" {
+					name = "build" // the same thing as a concatenation: one spelling
+				}
+				emit(name, x, ops)
 			case *ssa.BinOp:
 				if x.Op != token.ADD || !isStringType(x.Type()) {
 					continue
@@ -354,7 +358,7 @@ func sideSitesOf(p *Prog, fn *ssa.Function) []sideSite {
 				}
 				var ops []ssa.Value
 				concatLeaves(x, &ops)
-				emit("concat", x, ops)
+				emit("build", x, ops)
 			}
 		}
 	}
